@@ -4,11 +4,12 @@
 Only `LiquerModel` (import-free models) is linked here.
 -/
 import LiquerModel.Handlers.Token
+import LiquerModel.Handlers.Paths
 
 open Liquer
 
 def handlers : List (String → List String → Option String) :=
-  [Handlers.token]
+  [Handlers.token, Handlers.paths]
 
 def answer (line : String) : String :=
   match (line.trimAscii.toString.splitOn " ").filter (· ≠ "") with
